@@ -53,5 +53,16 @@ ENTRY = dict(
             "generated case (a rejected case is marked k_oracle=false and reported)",
             "binary64: gamma_UB ** 2 is exact below 2^26 (cases with a larger greedy gamma are skipped by the generator)",
             "max_wire_cuts_gamma is modelled exactly over Q (np.log2/np.ceil corner cases at powers of two are not modelled)",
+            "harness/c08.py: `judge` (own 5^g brute force on wire segments) runs on EVERY generated case (contract judge_accepts_clean_case) with "
+            "clauses (a) flag => minimum, (b) unrestricted => flag, (c) unrestricted => same overhead for every seed, (d) returned overhead never "
+            "below the brute-force optimum (attainment), (e) unrestricted and feasible => find_cuts does not raise; its domain = the theorems' "
+            "hypotheses (only 1- and 2-qubit instructions besides barriers, no classical bits, max_gamma >= 1, max_backjumps >= 0 or None, W >= 1, "
+            "some cut kind allowed); searches visiting more states than the model-evaluation budget (3000 quick / 20000 thorough) are kept and "
+            "judged by the oracle only (k_check_model = false)",
+            "observations (not alarms): all requests of one run execute in one harness process, so a defect that depends on the call history "
+            "would be attributed to the later request and a `--replay` in a fresh process might not reproduce it (call-history independence is "
+            "C09's subject); the per-case oracle uses a budget of 400 000 search nodes, `judge` on a replay 3 000 000 (verdicts can only move "
+            "from undecided to decided); gate kinds in the streams have dyadic gammas (cx, cz: 3; swap, iswap: 7; rzz(0): 1) so that every "
+            "compared product is exact in binary64 — non-dyadic gammas (rzz/cp at generic angles) are exercised by C07's tolerance stream only",
         ],
     )
